@@ -696,7 +696,7 @@ WellFormed(w, o) == /\ Unique(o.index)
                  /\ Len(o.index) = Len(o.rows)
 ModelScope(r) ==
     LET ev == r.ev IN
-    /\ \A nm \in DOMAIN r.pre : WellFormed(r.w, r.pre[nm])
+    /\ \A nm \in DOMAIN r.pre : WellFormed(r.w, r.pre[nm]) /\ N(r.pre[nm]) <= MaxShuffle
     /\ ev.recv # "" => ev.recv \in DOMAIN r.pre
     /\ ev.arg # "" => ev.arg \in DOMAIN r.pre
     /\ ev.res # "" => ev.res \notin DOMAIN r.pre
